@@ -1,4 +1,4 @@
-\* quick, wide: every tree of <= 3 entries, depth <= 3, 12 file names x {no x bit, 0755}, 4 directory names, 3 names of the hooks directory, <= 1 bad hook x 2 kinds: ~55 k states, ~47 k cases
+\* quick, wide: every tree of <= 3 entries, depth <= 3, 12 file names x {no x bit, 0755}, 4 directory names, 3 names of the hooks directory, <= 1 bad hook x 2 kinds: ~55 k states, ~47 k cases; cases exported for 1 of 7 residue classes of trees (chosen by the seed)
 SPECIFICATION Spec
 CONSTANTS
   DirNames <- DirNamesWide
@@ -11,6 +11,8 @@ CONSTANTS
   MaxFiles = 3
   RootRule = FALSE
   EmitCases = TRUE
+  EmitMod = 7
+  EmitRem = 0
 INVARIANTS TypeOK HooksExact OrderSorted NamesUnique ConfigRound RootNameIrrelevant Emit
 PROPERTIES AddIsLocal
 CHECK_DEADLOCK FALSE
